@@ -331,9 +331,9 @@ fn main() {
     }
     let thorough = r.tier().is_thorough();
     let jobs = r.args.jobs;
-    let all_max = r.tier().pick(20usize, 24usize); // every composition up to this length
-    let four_max = r.tier().pick(40usize, 70usize); // every 4-chunk split up to this length (thorough)
-    let cdc_all_max = r.tier().pick(18usize, 22usize);
+    let all_max = r.tier().pick(20usize, 28usize); // every composition up to this length
+    let four_max = r.tier().pick(40usize, 96usize); // every 4-chunk split up to this length (thorough)
+    let cdc_all_max = r.tier().pick(18usize, 25usize);
 
     // token normalisation at the type the whole driver uses
     r.eval(3);
@@ -344,7 +344,7 @@ fn main() {
     let mut lengths: BTreeSet<usize> = (0..=70).collect();
     lengths.extend([79, 80, 81, 95, 96, 97, 127, 128, 129, 255, 256, 257]);
     let mut patterns: Vec<(String, u64)> = ["zero", "ff", "80", "asc7e", "alt7f80"].iter().map(|s| (s.to_string(), 0)).collect();
-    let nrand = if thorough { 4 } else { 1 };
+    let nrand = if thorough { 6 } else { 1 };
     for i in 0..nrand {
         patterns.push((format!("rand{i}"), r.args.seed ^ (0x9e37_79b9 + i as u64)));
     }
@@ -475,7 +475,7 @@ fn main() {
     // ---- constructed preimages: keys whose RAW Murmur3 h1 is exactly Long.MIN_VALUE (must come out as
     // Long.MAX_VALUE) and the neighbouring boundary values; one block (all compositions) and two blocks
     let before_pre = r.evaluations.load(Ordering::Relaxed);
-    let n_free = r.tier().pick(64u64, 256u64);
+    let n_free = r.tier().pick(64u64, 1024u64);
     let mut pre_streams: Vec<(String, u64, Vec<u8>, Vec<i64>)> = Vec::new();
     let mut raw_min = 0u64;
     for target in [i64::MIN, i64::MIN + 1, i64::MAX, -1, 0] {
